@@ -17,6 +17,32 @@ CHECKS = {
    note=TRUST + "Bounds: sequence length, alphabet spellings; longer inputs are outside the claim.",
    technique="dynamic symbolic execution of the real parser on symbolic token streams, z3 path feasibility, exhaustive path partition within the bound",
    design="4/C06"),
+ "C18": dict(
+   level="model_checking",
+   text="Symbolic execution of the real CParser over bracket-rich token templates (expression, declarator, statement, parameter, struct-body and file-scope "
+        "contexts, <=5-6 holes quick / <=7-8 thorough) plus bracket-kind swaps inside fixed accepted programs: on every ACCEPTED path z3 must refute "
+        "pc & not Balanced(k) (SMT encoding of the three-kind bracket stack automaton) and pc & exists i. k_i = '#'. unsat = holds for every sequence in the template; "
+        "sat = a concrete unbalanced program the parser accepts, replayed through the real lexer.",
+   note=TRUST + "Character-level part (non-token text reported) is claimed by the chr run once built; bounds: hole counts and hole alphabets listed in evidence.",
+   technique="symbolic execution of the real parser + SMT obligation (bracket stack automaton unrolled in linear integer arithmetic) per accepted path",
+   design="4/C18"),
+ "C12": dict(
+   level="model_checking",
+   text="Product symbolic execution: one CParser instance parses a symbolic history (token template, <=2 holes after 4 prefixes quick / <=3 thorough; histories that "
+        "fail mid-scope, declare typedefs, end in look-ahead all occur as paths) and then a symbolic input (<=3 / <=4 holes in 3 contexts); a fresh instance parses the "
+        "same input on the same path. Outcomes (AST incl. coordinates / ParseError text / exception class) must coincide on every feasible path and ASTs of two calls share no node. "
+        "Also: same text twice; reused CGenerator on the witness of each accepted class.",
+   note=TRUST + "One earlier call is inductive for longer histories only as far as the state a call can leave is reachable within the history bound. Generator reuse is executed concretely on solver witnesses. Lexer reuse (CLexer.input) belongs to the character-level run.",
+   technique="product (self-composition) symbolic execution of the real parser over symbolic history and input token streams, z3 path feasibility, exhaustive within the bound",
+   design="4/C12"),
+ "C13": dict(
+   level="model_checking",
+   text="The schedule is symbolic: at each token request (parsers) or visit() call (generators) a z3 Bool decides whether control passes to another instance; all schedules "
+        "with <=2 (quick) / <=3 (thorough) context switches are explored as paths, for (a) the real parser on symbolic token templates with holes and clashing typedef/variable names, "
+        "(b) the untouched parser with a scheduling subclass of the real CLexer on 6 concrete texts (2 and 3 parsers), (c) two CGenerators. Each instance's result must equal its result when run alone.",
+   note=TRUST + "Token-granularity cooperative schedules only; pre-emptive thread switches inside a token request and free-running threads are outside the claim. Part (b)/(c) inputs are concrete; only the schedule is symbolic.",
+   technique="symbolic scheduler: interleavings as z3 Boolean decision variables over the real code run in strictly handed-off threads; exhaustive over schedules within the switch bound",
+   design="4/C13"),
 }
 
 NA = {
